@@ -11,7 +11,7 @@ CONSTANTS
   TdFlags = {FALSE}
   InVecs <- VecsOne
   OrderKinds = {"IBHO"}
-  ActSchemes <- SchemesLinear
+  ActSchemes <- SchemesMixed
   LinkCaps = {4}
   MinLinks = 2
   Canonical = TRUE
